@@ -1107,6 +1107,19 @@ func (e *Eng) applyContract(fr *Frame, st *State, instr ssa.Instruction, fc *Fun
 			held := e.heapTerm(st, "G|holds_globallock", "Bool")
 			e.oblige(st, "lock.blocking", "["+disp0(e, fc, key)+"]", e.allProps(), tNot(held), instr, "no package-level lock is held across a call that "+fc.Blocks)
 		}
+		// ... nor on a loop that accepts peers or streams (the tokens named *accept_loop): everybody who
+		// connects afterwards would wait for this one peer
+		var toks []string
+		for n := range e.heapNames {
+			if strings.HasPrefix(n, "G|holds_") && strings.HasSuffix(n, "accept_loop") {
+				toks = append(toks, n)
+			}
+		}
+		sort.Strings(toks)
+		for _, n := range toks {
+			held := e.heapTerm(st, n, "Bool")
+			e.oblige(st, "accept.blocking", "["+disp0(e, fc, key)+"]."+strings.TrimPrefix(n, "G|holds_"), e.allProps(), tNot(held), instr, "a loop that accepts peers makes no call that "+fc.Blocks)
+		}
 	}
 	// results the callee's protocol obliges the caller to look at
 	if len(fc.MustUse) > 0 && !fr.pure && fr.fn == e.fn && !e.collect && sig != nil {
